@@ -18,7 +18,7 @@ RULE = ("(read-only) for families x configuration classes (tags x rated power x 
         "(setter, argument) tuples")
 ASSUMPTIONS = ["frames are classified by an independent decoder inside the simulated inverter",
                "'modbus-N' ids are documented raw-register access and are not 'unknown' ids"]
-MUST = ["readonly_calls", "readonly_frames_seen", "after_valid_setters", "invalid_export_limit", "invalid_dod", "invalid_eco_power",
+MUST = ["concurrent_writer_reader", "readonly_calls", "readonly_frames_seen", "after_valid_setters", "invalid_export_limit", "invalid_dod", "invalid_eco_power",
         "invalid_eco_soc", "unknown_setting_ids", "discover_readonly", "valueerror_seen"]
 EXHAUSTIVE = {"quick": False, "thorough": False}
 
@@ -189,6 +189,88 @@ def invalid_case(fam, port, variant, seed, part, wide):
     part.sample({"mode": "invalid arguments", "family": fam, "variant": variant, "port": port, "probes": part.evaluations})
 
 
+def concurrent_case(fam, port, seed, part):
+    """a legitimate setter whose first datagrams are lost runs concurrently with monitoring calls on the same object: the
+    simulator must see exactly (lost + 1) write frames - a monitoring call that re-sends the writer's frame shows as a surplus."""
+    import asyncio
+    g = env.goodwe()
+    rnd = random.Random(seed)
+    sim = models.family_sim(fam, rnd=random.Random(seed + "s"), style="mixed")
+    lost = rnd.choice((1, 1, 2))
+    state = {"dropped": 0}
+    orig = sim.handle
+
+    def handle(req, kind):
+        if req["kind"] != "read" and state["dropped"] < lost:
+            state["dropped"] += 1
+            return None
+        return orig(req, kind)
+    sim.handle = handle
+
+    async def flow(loop):
+        inv = models.family_cls(g, fam)("inv0", port, 0, 1, 3)
+        inv.set_keep_alive(rnd.random() < 0.5)
+        await inv.read_device_info()
+        m0 = marks(sim)
+
+        async def writer():
+            await inv.write_setting("modbus-47510", rnd.randrange(1, 5000))
+
+        async def reader(delay):
+            await asyncio.sleep(delay)
+            try:
+                await inv.read_runtime_data()
+            except (g.InverterError, ValueError):
+                pass
+        await asyncio.gather(writer(), reader(rnd.choice((0.0, 0.01, 0.5))), reader(rnd.choice((0.2, 1.0, 1.01))))
+        return len(write_frames(sim, *m0))
+
+    run = engine.run_custom({("inv0", port): sim}, flow, vtime_cap=2000, tx_cap=5000)
+    part.evaluations += 1
+    part.count("concurrent_writer_reader")
+    part.see(f"conc|{fam}|{port}|{lost}")
+    if run.stop or run.error is not None:
+        part.violate(f"C18/{fam}/run-failed", f"concurrent writer/reader: {run.stop or repr(run.error)[:120]}", {"conc": True, "family": fam, "port": port, "seed": seed})
+    elif run.result != lost + 1:
+        part.violate(f"C18/{fam}/read-call-wrote/concurrent", f"{fam} port {port}: one write_setting with {lost} lost datagram(s) next to two "
+                     f"read_runtime_data() calls: the inverter saw {run.result} write frames, expected {lost + 1}",
+                     {"conc": True, "family": fam, "port": port, "seed": seed})
+
+
+def other_firmware_ids(fam, port, code, part):
+    """settings that exist only on newer firmware must stay unknown when the capability probe was answered with a Modbus exception
+    (any code): write_setting -> ValueError, nothing written."""
+    g = env.goodwe()
+    sim = models.et_sim()
+    sim.exc_map = {(3, 47547): code, (3, 47589): code}
+
+    async def flow(loop):
+        inv = g.ET("inv0", port, 0, 1, 0)
+        await inv.read_device_info()
+        out = []
+        for sid in ("fast_charging", "fast_charging_soc", "peak_shaving_soc", "eco_mode_enable", "dod_holding", "load_control_mode"):
+            m0 = marks(sim)
+            try:
+                await inv.write_setting(sid, 1)
+                err = None
+            except ValueError as e:
+                err = e
+            except Exception as e:      # noqa
+                err = e
+            out.append((sid, type(err).__name__ if err else None, write_frames(sim, *m0)))
+        return out
+
+    run = engine.run_custom({("inv0", port): sim}, flow, vtime_cap=2000)
+    for sid, err, w in (run.result or []):
+        part.evaluations += 1
+        part.count("unknown_setting_ids")
+        if w or err != "ValueError":
+            part.violate(f"C18/{fam}/invalid-argument-written/unknown_setting_ids" if w else f"C18/{fam}/no-valueerror/unknown_setting_ids",
+                         f"ET whose firmware probes were answered with exception {code}: write_setting('{sid}', 1) -> {err}, write frames {w[:2]}",
+                         {"fwids": True, "port": port, "code": code})
+    part.see(f"fwids|{port}|{code}")
+
+
 def plan(tier, seed):
     specs = [{"mode": "ro", "shard": i, "shards": 12, "tier": tier, "seed": seed} for i in range(12)]
     for fam, variants in (("ET", ["ETU", "ETT", "EHU"]), ("DT", ["DTU", "DSN"]), ("ES", ["02525", "2225F", "1414E"])):
@@ -204,6 +286,12 @@ def run_shard(spec):
     part = Part()
     if spec["mode"] == "inv":
         invalid_case(spec["family"], spec["port"], spec["variant"], spec["seed"], part, spec["wide"])
+        if spec["family"] == "ET":
+            for code in (2, 4, 6, 1):
+                other_firmware_ids("ET", spec["port"], code, part)
+        for k in range(12 if not spec["wide"] else 60):
+            if spec["family"] != "ES":
+                concurrent_case(spec["family"], spec["port"], f"{spec['seed']}:conc:{k}", part)
         return part
     tier = spec["tier"]
     rnd = random.Random(f"{spec['seed']}:C18:plan")
@@ -221,7 +309,11 @@ def run_shard(spec):
 
 def replay(case):
     part = Part()
-    if case.get("ro"):
+    if case.get("conc"):
+        concurrent_case(case["family"], case["port"], case["seed"], part)
+    elif case.get("fwids"):
+        other_firmware_ids("ET", case["port"], case["code"], part)
+    elif case.get("ro"):
         readonly_case(case["config"], case["port"], case["seed"], part)
     else:
         invalid_case(case["family"], case["port"], case["variant"], "replay", part, True)
